@@ -654,7 +654,11 @@ impl<'de, R: Read<'de>> Parser<R> {
                     let name = self.parse_symbol()?;
                     self.symbol_or_postfix_keyword(name)
                 } else {
-                    return Err(self.peek_error(ErrorCode::ExpectedSomeValue));
+                    let err = self.peek_error(ErrorCode::ExpectedSomeValue);
+                    // Consume the offending byte, so that iterating over the
+                    // input makes progress instead of reporting it forever.
+                    self.eat_char();
+                    return Err(err);
                 }
             }
         };
